@@ -64,12 +64,21 @@ Proof.
       [exact Hy | discriminate Hy | exfalso; change (n_jobs (c (closed_state s t k))) with (n_jobs (c s)) in Hy; nia] end.
 Qed.
 
-Theorem reach_invall : forall s, reach s -> InvAll s.
+Lemma invall_init : InvAll init.
 Proof.
-  apply (ParallelFrame3.P_reach InvAll).
-  - split; [exact inv12345_init | apply inv6_off; reflexivity].
-  - intros s cf n f [H H6] Hcf Hr Hp. split; [apply inv12345_call; assumption | apply inv6_off; reflexivity].
-  - (* start_first *)
+  split; [exact inv12345_init | apply inv6_off; reflexivity].
+Qed.
+
+Lemma invall_call : forall s cf n f, InvAll s -> wf_cfg cf -> running s = false ->
+  (phase s = Idle \/ phase s = Finished) -> InvAll (do_call s cf n f).
+Proof.
+  intros s cf n f [H H6] Hcf Hr Hp. split; [apply inv12345_call; assumption | apply inv6_off; reflexivity].
+Qed.
+
+Lemma invall_start_first : forall s b s1 r, InvAll s -> 1 <= n_jobs (c s) -> 1 <= b -> phase s = StartFirst ->
+  dispatch_shape s b false s1 r -> InvAll (ParallelFrame3.start_first_next s1 r).
+Proof.
+  (* start_first *)
     intros s b s1 r [H H6] Hnj Hb Hph Hsh. split; [eapply inv12345_start_first; eassumption|].
     destruct H as [[[[_ H2] H3] _] _].
     destruct (k_first s H3 Hph) as (_ & _ & _ & _ & Hit & _).
@@ -84,7 +93,12 @@ Proof.
       destruct (aborting _) eqn:Hab; [apply inv6_aborting; exact Hab | exact Hf].
     + assert (Hit1 : iterating s1 = false) by (inversion Hsh; subst; exact Hit).
       destruct (aborting _); apply inv6_off; cbn; rewrite ?Hit1; try reflexivity; destruct (pre (c s1)); auto.
-  - (* start_loop *)
+Qed.
+
+Lemma invall_start_loop : forall s b s1 r, InvAll s -> 1 <= n_jobs (c s) -> 1 <= b -> phase s = StartLoop ->
+  dispatch_shape s b false s1 r -> InvAll (ParallelFrame3.start_loop_next s1 r).
+Proof.
+  (* start_loop *)
     intros s b s1 r [H H6] Hnj Hb Hph Hsh. split; [eapply inv12345_start_loop; eassumption|].
     destruct H as [[[[_ H2] H3] _] _].
     unfold ParallelFrame3.start_loop_next. destruct r.
@@ -94,37 +108,149 @@ Proof.
       * apply inv6_aborting. assumption.
       * unfold end_start. destruct H6 as [Q]. constructor. cbn. intros A B _.
         apply Q; [|exact B | left; exact Hph]. destruct (pre (c s1)); [discriminate A | exact A].
-  - intros s t o [H H6]. split; [apply inv12345_cb_start; exact H|].
+Qed.
+
+Lemma invall_cb_start : forall s t o, InvAll s -> InvAll (cb_start s t o).
+Proof.
+  intros s t o [H H6]. split; [apply inv12345_cb_start; exact H|].
     destruct (cb_start_fields3 s t o) as (A1 & A2 & A3 & A4 & A5 & A6 & A7 & A8 & A9 & A10 & A11).
     destruct H6 as [Q]. constructor. unfold opens in *. intros A B C.
     assert (E : opens_of (trk (cb_start s t o)) (cid (cb_start s t o)) (closed (cb_start s t o)) = opens_of (trk s) (cid s) (closed s)).
     { unfold opens_of. rewrite A9. unfold curids in A8. rewrite A8. reflexivity. }
     rewrite E. apply Q; [rewrite <- A3; exact A | apply A10; exact B | rewrite <- A11; exact C].
-  - (* cb_finish, input known to be exhausted *)
+Qed.
+
+Lemma invall_cb_finish_noorig : forall s t k, InvAll s -> nth_error (trk s) t = Some k -> In t (cbmid s) ->
+  tk_cid k = cid s -> orig s = false -> InvAll (ParallelFrame3.closed_state s t k).
+Proof.
+  (* cb_finish, input known to be exhausted *)
     intros s t k [H H6] Hk Hin Hc Ho. split; [apply inv12345_cb_finish_noorig; assumption|].
     destruct H as [[[_ H3] _] _]. apply inv6_off. cbn.
     destruct (iterating s) eqn:E; [|reflexivity]. rewrite (k_iter_orig s H3 E) in Ho. discriminate.
-  - (* cb_finish with dispatch_next *)
+Qed.
+
+Lemma invall_cb_finish_orig : forall s t k b s2 r, InvAll s -> 1 <= n_jobs (c s) -> 1 <= b ->
+  nth_error (trk s) t = Some k -> In t (cbmid s) -> tk_cid k = cid s -> orig s = true ->
+  dispatch_shape (ParallelFrame3.closed_state s t k) b true s2 r ->
+  InvAll (if r then s2 else set_flags s2 false false (phase s2)).
+Proof.
+  (* cb_finish with dispatch_next *)
     intros s t k b s2 r [H H6] Hnj Hb Hk Hin Hc Ho Hsh. split; [eapply inv12345_cb_finish_orig; eassumption|].
     destruct r.
     + eapply inv6_after_dispatch; [|exact Hsh | reflexivity].
       pose proof (inv12345_cb_close s t k H Hk Hin Hc) as H1. destruct H1 as [[[[_ H2] _] _] _]. exact H2.
     + apply inv6_off. reflexivity.
-  - intros s t k [H H6] Hk Hin Hc. split; [eapply inv12345_cb_stale; eassumption | same6].
-  - intros s [H H6]. split; [apply inv12345_want; exact H | unfold set_want; same6].
-  - intros s [H H6] Hp. split; [apply inv12345_close_try; assumption|]. apply inv6_phase. cbn. intros [A|A]; discriminate.
-  - intros s r [H H6] Hp. split; [eapply inv12345_close_drain; eassumption|]. apply inv6_phase. cbn. intros [A|A]; discriminate.
-  - intros s j [H H6] Hw Ht Hst. split; [apply inv12345_timeout; assumption | apply inv6_aborting; reflexivity].
-  - intros s v r [H H6] Hp. split; [eapply inv12345_yield; eassumption | same6].
-  - intros s e [H H6] Hp Hpo Hab Hff. split; [eapply inv12345_raise_fast; eassumption|]. apply inv6_phase. cbn. intros [A|A]; discriminate.
-  - intros s [H H6] Hp Hpo Hc. split; [apply inv12345_loop_exit; assumption|]. apply inv6_phase. cbn. intros [A|A]; discriminate.
-  - intros s j js [H H6] Hp Hpo Hab Hj Hst. split; [eapply inv12345_pop_done; eassumption|].
+Qed.
+
+Lemma invall_cb_stale : forall s t k, InvAll s -> nth_error (trk s) t = Some k -> In t (cbmid s) ->
+  tk_cid k <> cid s -> InvAll (add_comp s 0 (remove_id t (cbmid s))).
+Proof.
+  intros s t k [H H6] Hk Hin Hc. split; [eapply inv12345_cb_stale; eassumption | same6].
+Qed.
+
+Lemma invall_want : forall s, InvAll s -> InvAll (set_want s).
+Proof.
+  intros s [H H6]. split; [apply inv12345_want; exact H | unfold set_want; same6].
+Qed.
+
+Lemma invall_close_try : forall s, InvAll s -> phase s = Retrieving -> InvAll (abandon (finalize s Finished true true)).
+Proof.
+  intros s [H H6] Hp. split; [apply inv12345_close_try; assumption|]. apply inv6_phase. cbn. intros [A|A]; discriminate.
+Qed.
+
+Lemma invall_close_drain : forall s r, InvAll s -> phase s = Draining r -> InvAll (abandon (set_out s (jobs s) (jset s) [] false Finished)).
+Proof.
+  intros s r [H H6] Hp. split; [eapply inv12345_close_drain; eassumption|]. apply inv6_phase. cbn. intros [A|A]; discriminate.
+Qed.
+
+Lemma invall_timeout : forall s j, InvAll s -> want s = true -> timeout_target s = Some j -> status_of s j = Pending ->
+  InvAll (do_timeout s j).
+Proof.
+  intros s j [H H6] Hw Ht Hst. split; [apply inv12345_timeout; assumption | apply inv6_aborting; reflexivity].
+Qed.
+
+Lemma invall_yield : forall s v r, InvAll s -> pend_out s = v :: r ->
+  InvAll (deliver (set_out s (jobs s) (jset s) r false (phase s)) v).
+Proof.
+  intros s v r [H H6] Hp. split; [eapply inv12345_yield; eassumption | same6].
+Qed.
+
+Lemma invall_raise_fast : forall s e, InvAll s -> phase s = Retrieving -> pend_out s = [] -> aborting s = true ->
+  first_failed s = Some e -> InvAll (finalize s Finished true true).
+Proof.
+  intros s e [H H6] Hp Hpo Hab Hff. split; [eapply inv12345_raise_fast; eassumption|]. apply inv6_phase. cbn. intros [A|A]; discriminate.
+Qed.
+
+Lemma invall_loop_exit : forall s, InvAll s -> phase s = Retrieving -> pend_out s = [] ->
+  (aborting s = true /\ first_failed s = None \/
+   aborting s = false /\ iterating s = false /\ n_disp s <= n_comp s) ->
+  InvAll (finalize s (Draining (if exception s then [] else jobs s)) (exception s) false).
+Proof.
+  intros s [H H6] Hp Hpo Hc. split; [apply inv12345_loop_exit; assumption|]. apply inv6_phase. cbn. intros [A|A]; discriminate.
+Qed.
+
+Lemma invall_pop_done : forall s j js, InvAll s -> phase s = Retrieving -> pend_out s = [] -> aborting s = false ->
+  jobs s = j :: js -> status_of s j = Done ->
+  InvAll (set_out s js (remove_id j (jset s)) (tasks_of s j) true Retrieving).
+Proof.
+  intros s j js [H H6] Hp Hpo Hab Hj Hst. split; [eapply inv12345_pop_done; eassumption|].
     eapply inv6_same; [exact H6 | reflexivity | auto | reflexivity | reflexivity | reflexivity |]. cbn. intros _. right. exact Hp.
-  - intros s j js e [H H6] Hp Hpo Hab Hj Hst. split; [eapply inv12345_pop_failed; eassumption|]. apply inv6_phase. cbn. intros [A|A]; discriminate.
-  - intros s [H H6] Hp Hpo. split; [apply inv12345_drain_end; assumption|]. apply inv6_phase. cbn. intros [A|A]; discriminate.
-  - intros s j js [H H6] Hp Hpo Hst. split; [eapply inv12345_drain_pop; eassumption|]. apply inv6_phase. cbn. intros [A|A]; discriminate.
-  - intros s j js [H H6] Hp Hpo Hst. split; [eapply inv12345_drain_bad; eassumption|]. apply inv6_phase. cbn. intros [A|A]; discriminate.
-  - intros s [H _]. apply inv12345_wf. exact H.
+Qed.
+
+Lemma invall_pop_failed : forall s j js e, InvAll s -> phase s = Retrieving -> pend_out s = [] -> aborting s = false ->
+  jobs s = j :: js -> status_of s j = Failed e ->
+  InvAll (finalize (set_out s js (remove_id j (jset s)) [] true Retrieving) Finished true true).
+Proof.
+  intros s j js e [H H6] Hp Hpo Hab Hj Hst. split; [eapply inv12345_pop_failed; eassumption|]. apply inv6_phase. cbn. intros [A|A]; discriminate.
+Qed.
+
+Lemma invall_drain_end : forall s, InvAll s -> phase s = Draining [] -> pend_out s = [] ->
+  InvAll (set_out s (jobs s) (jset s) [] false Finished).
+Proof.
+  intros s [H H6] Hp Hpo. split; [apply inv12345_drain_end; assumption|]. apply inv6_phase. cbn. intros [A|A]; discriminate.
+Qed.
+
+Lemma invall_drain_pop : forall s j js, InvAll s -> phase s = Draining (j :: js) -> pend_out s = [] ->
+  status_of s j = Done -> InvAll (set_out s (jobs s) (jset s) (tasks_of s j) true (Draining js)).
+Proof.
+  intros s j js [H H6] Hp Hpo Hst. split; [eapply inv12345_drain_pop; eassumption|]. apply inv6_phase. cbn. intros [A|A]; discriminate.
+Qed.
+
+Lemma invall_drain_bad : forall s j js, InvAll s -> phase s = Draining (j :: js) -> pend_out s = [] ->
+  status_of s j <> Done -> InvAll (set_out s (jobs s) (jset s) [] false Finished).
+Proof.
+  intros s j js [H H6] Hp Hpo Hst. split; [eapply inv12345_drain_bad; eassumption|]. apply inv6_phase. cbn. intros [A|A]; discriminate.
+Qed.
+
+Lemma invall_wf : forall s, InvAll s -> 1 <= n_jobs (c s).
+Proof.
+  intros s [H _]. apply inv12345_wf. exact H.
+Qed.
+
+Theorem reach_invall : forall s, reach s -> InvAll s.
+Proof.
+  apply (ParallelFrame3.P_reach InvAll).
+  - exact invall_init.
+  - exact invall_call.
+  - exact invall_start_first.
+  - exact invall_start_loop.
+  - exact invall_cb_start.
+  - exact invall_cb_finish_noorig.
+  - exact invall_cb_finish_orig.
+  - exact invall_cb_stale.
+  - exact invall_want.
+  - exact invall_close_try.
+  - exact invall_close_drain.
+  - exact invall_timeout.
+  - exact invall_yield.
+  - exact invall_raise_fast.
+  - exact invall_loop_exit.
+  - exact invall_pop_done.
+  - exact invall_pop_failed.
+  - exact invall_drain_end.
+  - exact invall_drain_pop.
+  - exact invall_drain_bad.
+  - exact invall_wf.
 Qed.
 
 (* ---------------- the drain phase always answers ---------------- *)
